@@ -11,14 +11,17 @@ func register(c *PropConfig) { propConfigs[c.ID] = c }
 
 func init() {
 	register(&PropConfig{
-		ID:       "C14",
-		Probes:   []string{"runtime.getWatchedStrings#probe"},
-		Replay:   replayC14,
-		Level:    "other",
-		Also:     "C10",
-		Packages: []string{"./runtime", "."},
-		Corpus:   true,
-		Extra:    func(r *Run) { r.VerifyGenerated(r.corpus, "C10") },
+		ID:     "C14",
+		Probes: []string{"runtime.getWatchedStrings#probe"},
+		// the handlers' use of the buffer pool of package templ (a buffer handed on after its release) is not within the
+		// confinement obligations: the race-detector run is a bounded stand-in in the quick tier as well
+		QuickProbes: []string{"runtime.getWatchedStrings#probe"},
+		Replay:      replayC14,
+		Level:       "other",
+		Also:        "C10",
+		Packages:    []string{"./runtime", "."},
+		Corpus:      true,
+		Extra:       func(r *Run) { r.VerifyGenerated(r.corpus, "C10") },
 		Assume: []string{
 			"partial claim: confinement and lock discipline only - no interleaving semantics; data-race freedom and 'same bytes as when rendering alone' follow from confinement only together with the Go memory model and the documented concurrency contracts of sync.Pool, sync.Mutex and context.Context (assumed)",
 			"package-level variables that are never assigned after initialisation are treated as immutable (read from their initialiser); sync.Pool / sync.Mutex / *regexp.Regexp values are safe for concurrent use by their documentation",
@@ -96,11 +99,11 @@ func init() {
 	})
 	register(&PropConfig{
 		ID:       "C01",
-		Probes:   []string{"templ.RenderAttributes#probe"},
+		Probes:   []string{"templ.RenderAttributes#probe", "generator.sinks#probe"},
 		Replay:   replayC01,
 		Packages: []string{"."},
 		Corpus:   true,
-		Extra:    func(r *Run) { r.VerifyGenerated(r.corpus, "C01") },
+		Extra:    func(r *Run) { r.VerifyGenerated(r.corpus, "C01"); r.SweepGeneratorWrites() },
 		Assume: []string{
 			"HTML tokenizer facts (contracts/lang/html.lang): in the data state only '<' starts markup and '&' a reference; in a double-quoted attribute value only the quote ends it and '&' starts a reference",
 			"html.EscapeString: result in HTML_ESCAPED and html.UnescapeString inverts it",
